@@ -233,6 +233,13 @@ def inspect_mappers(im, classes_by_name) -> list:
         # foreign-key columns not used by a relationship of this class (other than the inheritance key)
         used = {n for r in m.relationships if r.parent is m and r.secondary is None for n in _rel_fk_cols(r, tab)}
         stray = sorted(n for n in fkcols if n not in used and not tab.columns[n].primary_key)
+        # attributes under which SQLAlchemy silently combines a column of this table with a column of an ancestor's table
+        # (other than the shared key): a write to one field then also writes the other
+        for prop in m.column_attrs:
+            if len(prop.columns) > 1 and prop.key != "database_id" and any(c.table is tab for c in prop.columns) \
+                    and any(c.table is not tab for c in prop.columns):
+                stray.append("&" + prop.key)
+        stray = sorted(stray)
         pkcols = [c.name for c in tab.primary_key.columns]
         inh_ok = 1
         if parent is not None:
@@ -497,7 +504,7 @@ def own_public(d, c) -> list:
 def features(d) -> Dict[str, bool]:
     mapped = [c for c in d["classes"] if is_mapped_cls(c)]
     names = {c["name"] for c in mapped}
-    ft = {k: False for k in ("K_selfcoll", "K_nobuiltin", "K_fkalias", "K_reserved", "K_pkname", "K_discname", "K_casefold", "K_assocname")}
+    ft = {k: False for k in ("K_selfcoll", "K_nobuiltin", "K_fkalias", "K_reserved", "K_pkname", "K_discname", "K_casefold", "K_assocname", "K_inhfkalias")}
     has_child = {mapped_parent(d, c["name"]) for c in mapped}
     tnames = [(c["name"] + "DAO").lower() for c in mapped]
     any_builtin = False
@@ -520,6 +527,21 @@ def features(d) -> Dict[str, bool]:
                 ft["K_pkname"] = True
             if f["name"] == "polymorphic_type" and mapped_parent(d, c["name"]) is None and c["name"] in has_child:
                 ft["K_discname"] = True
+    by = {c["name"]: c for c in d["classes"]}
+
+    def colnames(c):
+        out = set()
+        for f in own_public(d, c):
+            k, n = f["ep"]
+            if k == "c" and n in names and f["shape"] in ("plain", "opt"):
+                out.add(f["name"] + "_id")
+            elif k in ("b", "e"):
+                out.add(f["name"])
+        return out
+    for c in mapped:
+        anc = [by[a] for a in chain(d, c["name"]) if is_mapped_cls(by[a])]
+        if colnames(c) & set().union(*[colnames(a) for a in anc]) if anc else False:
+            ft["K_inhfkalias"] = True
     low = [c["name"].lower() for c in mapped]
     ft["K_casefold"] = len(set(low)) != len(low)
     ft["K_nobuiltin"] = not any_builtin
@@ -584,7 +606,7 @@ def shape_stats(d) -> Dict[str, int]:
 # generator
 # ------------------------------------------------------------------------------------------------
 CLASSNAMES = ["Aa", "Bq", "Cart", "Dx", "Eel", "Fig"]
-FIELDNAMES = ["a", "b1", "c_x", "dd", "e", "f0", "g_id", "h", "items", "name", "k_", "val"]
+FIELDNAMES = ["a", "b1", "c_x", "dd", "e", "f0", "g_id", "g", "h", "items", "name", "k_", "val"]
 
 
 def gen_model(rng, idx: int, allow_k: bool) -> dict:
@@ -775,7 +797,7 @@ def classify(impl, model, spec) -> int:
     return 2 if impl == model else 3
 
 
-KCLASS_ORDER = ["K_casefold"]   # the only open class inside the Coq grammar; a, c, d, e, f, h are repaired (c757abc, bd9b8e0), b (b804898), i (280300b)
+KCLASS_ORDER = ["K_casefold", "K_inhfkalias"]   # the only open class inside the Coq grammar; a, c, d, e, f, h are repaired (c757abc, bd9b8e0), b (b804898), i (280300b)
 
 
 MAX_REPLAYS = 6
@@ -948,7 +970,11 @@ def scenario_main(argv) -> int:
                 obj = getattr(obj, part)
             classes.append(obj)
         out["stage"] = "diagram"
-        cd = ClassDiagram(list(classes))
+        if sc.get("introspector"):      # a user supplied AttributeIntrospector (public API of krrood.class_diagrams)
+            imod, iname = sc["introspector"].rsplit(".", 1)
+            cd = ClassDiagram(list(classes), introspector=getattr(importlib.import_module(imod), iname)())
+        else:
+            cd = ClassDiagram(list(classes))
         out["stage"] = "ormatic"
         o = ORMatic(cd, inheritance_strategy=getattr(InheritanceStrategy, sc.get("strategy", "JOINED")))
         o.make_all_tables()
@@ -982,6 +1008,15 @@ def scenario_main(argv) -> int:
                     continue
                 if f.name not in ms[0].attrs.keys():
                     problems.append(f"{c.__qualname__}.{f.name}: no mapped attribute")
+        # nothing for fields starting with an underscore
+        for m in mappers:
+            for k in m.attrs.keys():
+                if k.startswith("_"):
+                    problems.append(f"{m.class_.__name__}.{k}: mapped attribute for an underscore field")
+        mapped_tables = {m.local_table.name for m in mappers}
+        for n in im.Base.metadata.tables:
+            if n not in mapped_tables and "__" in n:
+                problems.append(f"association table {n} for an underscore field")
         out["problems"] = problems
         out["stage"] = "ok"
     except BaseException as ex:  # noqa
@@ -1044,7 +1079,7 @@ def run(tier: str, seed: int, replay=None) -> int:
         "translator/t_parsefield.py (fail-closed ast translator: parse_field chain, relationship predicates, name builders, mapper-arg conditions -> Gen/ParseField.v)",
         "Orm/SchemaStr.v py_lower/py_startswith as the meaning of str.lower()/str.startswith() on ASCII identifiers",
         "hand-written parts of Orm/Schema.v (facts of an annotation, dataclass field inheritance, constructor contents), tied by comparing ORMatic's containers with `gen` on every generated model",
-        "source pins pins/ormatic.json (set pins/sets/ormatic.json, 53 methods of ormatic.py / wrapped_table.py / sqlalchemy_generator.py / class_diagram.py / "
+        "source pins pins/ormatic.json (set pins/sets/ormatic.json, 54 methods of ormatic.py / wrapped_table.py / sqlalchemy_generator.py / class_diagram.py / "
         "wrapped_field.py that Orm/Schema.v mirrors and t_parsefield does not regenerate, incl. the absence of a hand-written WrappedTable.__eq__): an edit reopens the correspondence obligation",
         "harness/c06.py: source renderer, regex reading of ColumnConstructor strings, mapper inspection and its canonical encoding",
         "SQLAlchemy / SQLite accept a layer that is statically well-formed: compared on every case, not proved (level: partial)",
